@@ -699,7 +699,7 @@ func C17() *check.Property {
 			"(processNotification dispatch used by Dematerialize) agree kind by kind, hence Materialize followed by Dematerialize is the identity on kinds; COLLECT-WAITS for Collect.",
 		NotDecided:  "the exact contents of slices/maps; consumers that stop reading; the 1 ms sleep in ToChannel that orders the hand-out of the channel against an empty source's completion (a schedule-dependent ordering the analysis sees but cannot decide without executing; reported in DESIGN.md only).",
 		Assumptions: []string{"Go channel semantics", "teardowns run once (C03)", "observer slots recover panics (C07)"},
-		Floors:      map[string]int{"channels": 6, "sends_on_closable_channels": 6, "notification_constructors": 3, "from_channel": 1},
+		Floors:      map[string]int{"channels": 6, "sends_on_closable_channels": 6, "notification_constructors": 3, "from_channel": 1, "from_channel_receives": 1},
 		Controls:    map[string]string{"zz_verif_controls_c17.go": roControl(controlsC17), "zz_verif_controls_c12.go": roControl(controlsC12), "zz_verif_controls_c05.go": roControl(controlsC05), "zz_verif_controls_c04.go": roControl(controlsC04), "zz_verif_controls_termrel.go": roControl(controlsTerminalRelease), "zz_verif_controls_c09.go": roControl(controlsC09 + controlsC09b), "zz_verif_controls_c03.go": roControl(controlsC03 + controlsC03b)},
 	}
 }
